@@ -24,6 +24,57 @@ class NS(types.SimpleNamespace):
 
 
 
+class NodeNS(NS):
+    """Stand-in for objects that kyupy uses directly as indices (Node, Line define __index__)."""
+    def __index__(self):
+        return self.index
+
+
+class IntArr:
+    """Stand-in for a one-dimensional integer ndarray as far as traversal code uses it: item read / store by integer-like index,
+    selection by an index list, `+ k` / `- k`, `.max()` / `.min()` (ValueError on an empty selection, like numpy). The element
+    width is not modelled (a rule about the width must look at the dtype itself)."""
+    def __init__(self, vals):
+        self.v = list(vals)
+
+    def __len__(self):
+        return len(self.v)
+
+    def __getitem__(self, k):
+        if isinstance(k, (list, tuple)):
+            return IntArr([self.v[int(i.__index__())] for i in k])
+        if isinstance(k, slice):
+            return IntArr(self.v[k])
+        return self.v[k.__index__()]
+
+    def __setitem__(self, k, val):
+        if isinstance(k, slice):
+            n = len(self.v[k])
+            self.v[k] = [val] * n
+        else:
+            self.v[k.__index__()] = val
+
+    def _map(self, f):
+        return IntArr([f(x) for x in self.v])
+
+    def __add__(self, o): return self._map(lambda x: x + o)
+    def __sub__(self, o): return self._map(lambda x: x - o)
+    def __mul__(self, o): return self._map(lambda x: x * o)
+
+    def max(self):
+        if not self.v:
+            raise ValueError('zero-size array to reduction operation maximum which has no identity')
+        return max(self.v)
+
+    def min(self):
+        if not self.v:
+            raise ValueError('zero-size array to reduction operation minimum which has no identity')
+        return min(self.v)
+
+
+FUEL = 20000      # bound on while-loop iterations: beyond it the evaluated code is taken not to terminate (a result, not a model error)
+
+
 def freeze(x):
     """hashable, comparable form of an index / value: lists and tuples -> tuples, stand-in objects -> their name or index, slices -> ':'"""
     if isinstance(x, (list, tuple)):
@@ -74,6 +125,8 @@ def ev(e, env):
         if b is None:
             raise TypeError("'NoneType' object is not subscriptable")
         if type(b).__name__ == 'Match':
+            return b[ev(e.slice, env)]
+        if isinstance(b, IntArr):
             return b[ev(e.slice, env)]
         if not isinstance(b, (list, tuple, dict, str)):
             raise ModelError(f'minieval: subscript on {type(b).__name__}: {ast.unparse(e)}')
@@ -129,7 +182,18 @@ def ev(e, env):
                 r.append(ev(x, env))
         return tuple(r) if isinstance(e, ast.Tuple) else r
     if isinstance(e, ast.JoinedStr):
-        return '<f-string>'
+        parts = []
+        for v in e.values:
+            if isinstance(v, ast.Constant):
+                parts.append(str(v.value))
+            elif isinstance(v, ast.FormattedValue) and v.conversion == -1 and v.format_spec is None:
+                x = ev(v.value, env)
+                if not isinstance(x, (str, int)):
+                    return '<f-string>'      # text of a message: its exact content is not modelled
+                parts.append(str(x))
+            else:
+                return '<f-string>'
+        return ''.join(parts)
     if isinstance(e, ast.Dict):
         return {ev(k, env): ev(v, env) for k, v in zip(e.keys, e.values)}
     if isinstance(e, ast.DictComp):
@@ -190,9 +254,28 @@ def ev(e, env):
         return {}
     if isinstance(e, ast.Call) and isinstance(e.func, ast.Attribute) and e.func.attr in ('append', 'extend') and not e.keywords:
         recv = ev(e.func.value, env)
-        if isinstance(recv, list):        # comprehension evaluated for its effect on a list the code itself created
+        if isinstance(recv, list) or type(recv).__name__ == 'deque':        # comprehension evaluated for its effect on a list the code itself created
             getattr(recv, e.func.attr)(*[ev(a, env) for a in e.args])
             return None
+    if isinstance(e, ast.Call) and isinstance(e.func, ast.Name) and e.func.id == 'deque' and len(e.args) <= 1 and not e.keywords:
+        import collections
+        return collections.deque(*[ev(a, env) for a in e.args])
+    if isinstance(e, ast.Call) and isinstance(e.func, ast.Attribute) and isinstance(e.func.value, ast.Name) and e.func.value.id == 'np' \
+            and e.func.attr == 'zeros' and len(e.args) == 1 and all(k.arg == 'dtype' for k in e.keywords):
+        n = ev(e.args[0], env)
+        if not isinstance(n, int):
+            raise ModelError('minieval: np.zeros with a non-integer shape')
+        return IntArr([0] * n)
+    if isinstance(e, ast.Call) and isinstance(e.func, ast.Attribute) and e.func.attr in ('max', 'min') and not e.args and not e.keywords:
+        b = ev(e.func.value, env)
+        if isinstance(b, IntArr):
+            return getattr(b, e.func.attr)()
+        raise ModelError(f'minieval: .{e.func.attr}() on {type(b).__name__}')
+    if isinstance(e, ast.Call) and isinstance(e.func, ast.Attribute) and e.func.attr in ('popleft', 'pop') and not e.keywords:
+        import collections
+        b = ev(e.func.value, env)
+        if isinstance(b, collections.deque) or (isinstance(b, list) and e.func.attr == 'pop'):
+            return getattr(b, e.func.attr)(*[ev(a, env) for a in e.args])    # IndexError on an empty container: what the code would raise
     if isinstance(e, ast.Call) and isinstance(e.func, ast.Name) and e.func.id in _CALLS and not e.keywords:
         return _CALLS[e.func.id](*[ev(a, env) for a in e.args])
     if isinstance(e, ast.Call) and isinstance(e.func, ast.Attribute) and isinstance(e.func.value, ast.Name) and e.func.value.id == 're' \
@@ -269,11 +352,30 @@ def call_function(fdef, args, env=None):
     body = fdef.body
     if body and isinstance(body[0], ast.Expr) and isinstance(body[0].value, ast.Constant) and isinstance(body[0].value.value, str):
         body = body[1:]
+    if any(isinstance(n, (ast.Yield, ast.YieldFrom)) for n in _own_nodes(fdef)):
+        # a generator function: evaluated eagerly, the value is the list of yielded items. Equivalent to lazy evaluation as long as the
+        # consumer does not change anything the generator reads while it is suspended (the rules using this state that assumption)
+        e['__yield__'] = []
+        try:
+            run(body, e)
+        except Returned:
+            pass
+        return e['__yield__']
     try:
         run(body, e)
     except Returned as r:
         return r.value
     return None
+
+
+def _own_nodes(fdef):
+    st = list(fdef.body)
+    while st:
+        n = st.pop()
+        yield n
+        for c in ast.iter_child_nodes(n):
+            if not isinstance(c, (ast.FunctionDef, ast.Lambda, ast.ClassDef)):
+                st.append(c)
 
 
 def run(stmts, env):
@@ -297,6 +399,42 @@ def run(stmts, env):
             ev(st.value, env)
             continue
         if isinstance(st, ast.Expr) and isinstance(st.value, ast.Call) and isinstance(st.value.func, ast.Name) and st.value.func.id == 'print':
+            continue
+        if isinstance(st, ast.Expr) and isinstance(st.value, ast.Yield):
+            if '__yield__' not in env:
+                raise ModelError('minieval: yield outside an evaluated generator function')
+            env['__yield__'].append(ev(st.value.value, env) if st.value.value is not None else None)
+            continue
+        if isinstance(st, ast.Expr) and isinstance(st.value, ast.YieldFrom):
+            if '__yield__' not in env:
+                raise ModelError('minieval: yield outside an evaluated generator function')
+            env['__yield__'].extend(list(ev(st.value.value, env)))
+            continue
+        if isinstance(st, ast.While) and not st.orelse:
+            fuel = FUEL
+            stop = None
+            while ev(st.test, env):
+                fuel -= 1
+                if fuel < 0:
+                    raise RuntimeError('loop does not terminate within the evaluation bound')
+                r = run(st.body, env)
+                if r == 'break':
+                    break
+            continue
+        if isinstance(st, ast.AugAssign) and isinstance(st.target, ast.Subscript):
+            base = ev(st.target.value, env)
+            if not isinstance(base, (list, dict, IntArr)) or isinstance(base, Rec):
+                raise ModelError('minieval: augmented item store')
+            k = ev(st.target.slice, env)
+            cur = base[k]
+            tmp = dict(env)
+            tmp['__cur__'] = cur
+            base[k] = ev(ast.BinOp(left=ast.Name(id='__cur__', ctx=ast.Load()), op=st.op, right=st.value), tmp)
+            continue
+        if isinstance(st, ast.Expr) and isinstance(st.value, ast.Call) and isinstance(st.value.func, ast.Attribute) \
+                and st.value.func.attr in ('append', 'appendleft', 'extend', 'extendleft', 'popleft', 'pop', 'clear') and not st.value.keywords \
+                and type(ev(st.value.func.value, env)).__name__ == 'deque':
+            getattr(ev(st.value.func.value, env), st.value.func.attr)(*[ev(a, env) for a in st.value.args])
             continue
         if isinstance(st, ast.Expr) and isinstance(st.value, ast.Call) and isinstance(st.value.func, ast.Attribute) \
                 and st.value.func.attr not in ('append', 'extend', 'reverse', 'insert', 'add'):
@@ -325,7 +463,7 @@ def run(stmts, env):
             if isinstance(base, Rec):
                 base.put(ev(st.targets[0].slice, env), ev(st.value, env))
                 continue
-            if not isinstance(base, (list, dict)):
+            if not isinstance(base, (list, dict, IntArr)):
                 raise ModelError('minieval: item store')
             base[ev(st.targets[0].slice, env)] = ev(st.value, env)
             continue
